@@ -618,7 +618,7 @@ Definition timeout_parse_float (x : f64) : option f64 :=
      if value == value and abs(value) != float("inf"):
          if value >= 1 and value == int(value): return f"{int(value)}s"
          ms = value * 1000
-         if ms == int(ms) and ms / 1000 == value: return f"{int(ms)}ms"
+         if abs(ms) != float("inf") and ms == int(ms) and ms / 1000 == value: return f"{int(ms)}ms"
      return f"{value!r}s"
    (literals generated; `and` short-circuits, so int(...) / float(...) / the division are only
    evaluated where Python evaluates them) *)
@@ -641,17 +641,23 @@ Definition timeout_unparse (v : f64) : option (list Z) :=
       | Some true => option_map (fun i => str_of_Z i ++ timeout_unparse_large_suffix) (f_trunc v)
       | Some false =>
           let ms := f_mul v (f_of_Z timeout_unparse_small_factor) in
-          match f_trunc ms with
+          match py_float timeout_unparse_ms_inf_literal with
           | None => None
-          | Some i =>
-              match (if f_eqb_Z ms i
-                     then option_map (fun q => f_eqb q v)
-                                     (f_div ms (f_of_Z timeout_unparse_small_divisor))
-                     else Some false) with
-              | None => None
-              | Some true => Some (str_of_Z i ++ timeout_unparse_small_suffix)
-              | Some false => exact
-              end
+          | Some infms =>
+              if negb (f_eqb (f_abs ms) infms) then
+                match f_trunc ms with
+                | None => None
+                | Some i =>
+                    match (if f_eqb_Z ms i
+                           then option_map (fun q => f_eqb q v)
+                                           (f_div ms (f_of_Z timeout_unparse_small_divisor))
+                           else Some false) with
+                    | None => None
+                    | Some true => Some (str_of_Z i ++ timeout_unparse_small_suffix)
+                    | Some false => exact
+                    end
+                end
+              else exact
           end
       end
   end.
